@@ -580,7 +580,7 @@ func (c *Conn) loadSession(hello *clientHelloMsg) (cacheKey string,
 
 	hello.ticketSupported = true
 
-	if hello.supportedVersions[0] == VersionTLS13 {
+	if len(hello.supportedVersions) > 0 && hello.supportedVersions[0] == VersionTLS13 {
 		// Require DHE on resumption as it guarantees forward secrecy against
 		// compromise of the session ticket key. See RFC 8446, Section 4.2.9.
 		hello.pskModes = []uint8{pskModeDHE}
